@@ -1,5 +1,6 @@
 """C04 - a trashed entry is never overwritten: names stay unique, also under concurrency."""
 import copy
+import errno
 import itertools
 
 import engine
@@ -151,6 +152,14 @@ def run(run, thorough):
     for s, res in out:
         fake = {'before': res['before'], 'after': res['steps'][-1]['after'], 'steps': res['steps']}
         judge(run, s, fake, victims, 'empty', 'sequential-%d' % n, 'sequential-state')
+    # --- a file system that rejects exclusive creates (EINVAL on every O_EXCL open), two processes in lock step: without the
+    # exclusive create there is no safe way to reserve a name - both must fail rather than share one
+    for shape, sched in schedules_systematic(nops=8)[::2]:
+        scn, steps, victims = make_scn(2, ('f', 'f'), 'empty')
+        for st in steps:
+            st['plan'] = {'faults': {'open': {'errno': errno.EINVAL, 'excl': True}}}
+        res = sandbox.execute_concurrent(scn, steps, sched)
+        judge(run, dict(scn, steps=steps), res, victims, 'empty', 'no-excl:' + shape, 'lockstep-2-no-excl')
     # --- another trash-put runs to completion INSIDE this one, right after its k-th library operation (every k, probes included), while
     # the home trash directory does not exist yet: both create it, both entries are whole afterwards
     td = '/home/u/.local/share/Trash'
@@ -201,14 +210,23 @@ def run(run, thorough):
         judge(run, scn2, res, victims, pre, shape if shape != 'random' else sched, 'lockstep-2')
     # --- lock step with a FAILING move in process 0 (EACCES on every move it attempts): its clean-up runs interleaved with a second
     # trash-put of the same name; whatever process 0 undoes must be its own reservation only
-    import errno
     for pre in (['empty', 'orphan_l', 'info_only'] if not thorough else pres):
         kinds = rng.choice([('f', 'f'), ('d', 'f'), ('f', 'd')])
-        for shape, sched in schedules_systematic(nops=10):
+        # three-phase schedules: the failing process gets as far as its exclusive create, the other one runs into the taken name, the
+        # failing one fails and cleans up, the other one goes on - for every plausible position of the two cuts
+        three = [('random', [0] * a + [1] * b + [0] * c + [1] * 40 + [0] * 40) for a in (4, 5, 6) for b in (4, 5, 6) for c in (4, 5, 6)] if pre == 'empty' else []
+        for shape, sched in schedules_systematic(nops=12) + three + [('random', [rng.randint(0, 1) for _ in range(80)]) for _ in range(6 if not thorough else 60)]:
+            if shape == 'random':
+                shape = 'random:' + ''.join(str(x) for x in sched)
             scn, steps, victims = make_scn(2, kinds, pre)
             steps[0]['plan'] = {'faults': {'move': {'errno': errno.EACCES}}}
+            if shape.startswith('random:') and sched in [x[1] for x in three]:
+                # one candidate only: a bystander that gives up on the name has nowhere else to go, and must not give up
+                for st in steps:
+                    st['argv'] = ['--trash-dir', '/home/u/.local/share/Trash'] + st['argv']
             res = sandbox.execute_concurrent(scn, steps, sched)
             judge(run, dict(scn, steps=steps), res, victims, pre, 'failing-move:' + shape, 'lockstep-2-failing-move')
+            judge_bystander(run, dict(scn, steps=steps), res, 'failing-move:' + shape)
     # --- 3 processes, random schedules
     for _ in range(15 if not thorough else 200):
         pre = rng.choice(pres)
@@ -224,6 +242,15 @@ def run(run, thorough):
         res = sandbox.execute_concurrent(scn, steps, None)
         judge(run, dict(scn, steps=steps), res, victims, 'free', 'free-running', 'free-running')
     run.sample({'level': 'schedule', 'processes': 2, 'schedule': 'B-inside-A@5', 'pre_state': 'orphan_d', 'kinds': ['f', 'd']})
+
+
+def judge_bystander(run, scn2, res, shape, section='lockstep-2-failing-move'):
+    """process 1 meets no error of its own: a name taken (for a while) by the failing process 0 is a reason to take the next name, not to fail"""
+    o1 = res['steps'][1]
+    if not (o1.get('timeout') or o1.get('harness_error')) and o1.get('exit') != 0:
+        run.fail('oracle', 'a trash-put that met no file-system error failed because another trash-put of the same name was failing next to it',
+                 {'scenario': scn2, 'schedule': shape, 'exits': [o.get('exit') for o in res['steps']], 'stderr': [o.get('stderr', '')[-300:] for o in res['steps']]},
+                 key='bystander-failed', section=section)
 
 
 def judge_inside(run, s2, r, section='put-inside-put'):
@@ -262,10 +289,16 @@ def replay(run, payload):
         fake = {'before': res['before'], 'after': res['steps'][-1]['after'], 'steps': res['steps']}
         judge(run, scn, fake, victims, '?', sched, 'sequential-state')
         return
+    if isinstance(sched, str) and sched.startswith('no-excl:'):
+        sched = dict(schedules_systematic(nops=8)).get(sched[len('no-excl:'):], [0, 1] * 40)
+    if isinstance(sched, str) and sched.startswith('failing-move:random:'):
+        sched = [int(c) for c in sched[len('failing-move:random:'):]]
     if isinstance(sched, str) and sched.startswith('failing-move:'):
-        sched = dict(schedules_systematic(nops=10)).get(sched[len('failing-move:'):], [0, 1] * 40)
+        sched = dict(schedules_systematic(nops=12)).get(sched[len('failing-move:'):], [0, 1] * 40)
     if isinstance(sched, str):
         sched = dict(schedules_systematic()).get(sched, [0, 1] * 40) if sched != 'free-running' else None
     res = sandbox.execute_concurrent({k: v for k, v in scn.items() if k != 'steps'}, steps, sched)
     print('exits', [o.get('exit') for o in res['steps']])
+    if isinstance(case.get('schedule'), str) and case['schedule'].startswith('failing-move:'):
+        judge_bystander(run, scn, res, case['schedule'], 'replay')
     judge(run, scn, res, victims, '?', sched if sched is not None else 'free-running', 'replay')
